@@ -388,6 +388,13 @@ func checkC20(p *core.Program, r *core.Report) {
 			r.OK(R5, "by-value struct loads", "", fmt.Sprintf("%d struct loads examined, none of a lock-bearing type", nload))
 		}
 	}
+	// ---- R6: the socket's write methods are serialised (shared with C12.R5)
+	const R6 = "C20.R6 socket-write-methods-serialised"
+	r.Rule(R6, "every call of a gorilla write method (WriteMessage, WriteControl, NextWriter, WriteJSON, SetWriteDeadline, ...) holds one common mutex: gorilla allows one concurrent caller of this group")
+	if wa := findWS(p, r, R6); wa != nil {
+		wli := core.AnalyzeLocks(wa.fns, func(fn *ssa.Function) bool { return fn.Object() != nil && fn.Object().Exported() })
+		checkTransportWrites(p, r, wa, wli, R6)
+	}
 	r.Counts["fields_examined"] = nfields
 	r.Counts["fields_mutex_protected"] = nprot
 	r.Counts["fields_immutable"] = nimm
